@@ -20,6 +20,7 @@ fn arg_val(args: &[String], name: &str) -> Option<String> {
 
 fn main() {
     let args: Vec<String> = std::env::args().collect();
+    exec::install_panic_hook();
     if args.len() < 2 {
         usage();
     }
